@@ -410,14 +410,16 @@ def oracle(chk, rng, mname, ty, alpha, s_infos, syms, txt, case):
     except cparse.CParseError as e:
         chk.violation({"kind": "not-an-expression", "model": mname}, f"emitted grain rate is not a C expression: {txt[:160]} ({e})", input=case)
         return True
-    for _ in range(3):
+    for trial in range(4):
         p = Params(rng)
         for s in s_infos:
             p["eb_" + s["alias"]] = s["eb"]
         if s_infos[0]["eb"]:
-            # thresholds just below / above the species' own binding energy, so that a wrong value changes the branch
+            # thresholds just below / above the species' own binding energy, so that a wrong value changes the branch -
+            # and once exactly *at* it (the gates are inclusive: a species desorbs when its binding energy does not exceed the
+            # threshold; the packaged cloud example sets the threshold to the binding energy of #C2)
             for k in ("eb_uvd", "eb_crd", "eb_h2d"):
-                p[k] = s_infos[0]["eb"] * rng.choice([0.93, 1.07, 0.5, 3.0])
+                p[k] = s_infos[0]["eb"] * (1.0 if trial == 3 else rng.choice([0.93, 1.07, 0.5, 3.0]))
         try:
             want = physical(mname, ty, p, alpha, s_infos[0], s_infos[1], syms)
         except (ValueError, OverflowError, ZeroDivisionError):
